@@ -753,7 +753,7 @@ pub fn gen_program(run_seed: u64, cfg: &ProgCfg) -> Program {
     if let Some(res) = cfg.placement_residue {
         // header 48 bytes + blob header 16 + len, next section at the next multiple of 4
         let len = ((res as i64 - 64).rem_euclid(1020)) as usize + 1020 * r.usize_below(2);
-        calls.push(Call::Blob { data: Bytes::draw(&mut r, len), pipe: Chunk::draw(&mut ch) });
+        calls.push(Call::Blob { data: Bytes::draw(&mut r, len), pipe: Chunk::draw(&mut ch), fail_after: None });
     }
     let mut items = r.usize_below(cfg.max_items + 1);
     let want_big = !cfg.small && r.below(1000) < cfg.big_permille as u64;
@@ -807,7 +807,7 @@ pub fn gen_program(run_seed: u64, cfg: &ProgCfg) -> Program {
                     big_done = true;
                     len = *r.pick(&[65_535usize, 65_536, 65_537, 70_000, 131_072, 200_003]);
                 }
-                calls.push(Call::Blob { data: Bytes::draw(&mut r, len), pipe: Chunk::draw(&mut ch) });
+                calls.push(Call::Blob { data: Bytes::draw(&mut r, len), pipe: Chunk::draw(&mut ch), fail_after: None });
             }
             _ => {
                 let mut steps = Vec::new();
@@ -840,11 +840,16 @@ pub fn gen_program(run_seed: u64, cfg: &ProgCfg) -> Program {
         }
     }
     let end = if cfg.custom_xml && r.chance(1, 4) {
-        End::FinalizeXml(if r.chance(1, 2) { XmlScript::Identity } else { XmlScript::Edit })
+        End::FinalizeXml(match r.below(6) {
+            0 | 1 => XmlScript::Identity,
+            2 | 3 => XmlScript::Edit,
+            4 => XmlScript::Append,
+            _ => XmlScript::Shorten,
+        })
     } else {
         End::Finalize
     };
-    Program { guid: gen_guid(&mut r), calls, end, knob: cfg.knob }
+    Program { guid: gen_guid(&mut r), calls, end, knob: cfg.knob, on_error: OnError::Stop }
 }
 
 /// Generic shrink candidates for a program: drop calls, drop steps, fewer points, smaller blobs,
@@ -916,18 +921,27 @@ pub fn shrink_program(p: &Program) -> Vec<Program> {
                     }
                 }
             }
-            Call::Blob { data, pipe } => {
+            Call::Blob { data, pipe, fail_after } => {
                 for m in [data.len / 2, data.len.saturating_sub(1), data.len.saturating_sub(4)] {
                     if m < data.len {
                         let mut q = p.clone();
-                        q.calls[i] = Call::Blob { data: Bytes { len: m, ..data.clone() }, pipe: pipe.clone() };
+                        q.calls[i] = Call::Blob { data: Bytes { len: m, ..data.clone() }, pipe: pipe.clone(), fail_after: fail_after.map(|k| k.min(m)) };
                         out.push(q);
                     }
                 }
                 if *pipe != Chunk::Full {
                     let mut q = p.clone();
-                    q.calls[i] = Call::Blob { data: data.clone(), pipe: Chunk::Full };
+                    q.calls[i] = Call::Blob { data: data.clone(), pipe: Chunk::Full, fail_after: *fail_after };
                     out.push(q);
+                }
+                if let Some(k) = fail_after {
+                    for m in [k / 2, k.saturating_sub(4), k.saturating_sub(1)] {
+                        if m < *k {
+                            let mut q = p.clone();
+                            q.calls[i] = Call::Blob { data: data.clone(), pipe: pipe.clone(), fail_after: Some(m) };
+                            out.push(q);
+                        }
+                    }
                 }
             }
             _ => {}
